@@ -317,9 +317,16 @@ def _check(prop, tier, replay):
         cases.extend(P.cases(rng, eff_tier))
 
     impls, lines, idx = [], [], []
+    harness_exc = []          # exceptions inside the plugin on single cases: they must not mask violations elsewhere
     for i, c in enumerate(cases):
-        impl = P.run_impl(c)
+        try:
+            impl = P.run_impl(c)
+        except Exception as e:      # noqa
+            harness_exc.append((i, 'run_impl', traceback.format_exc()[-1500:]))
+            impl = None
         impls.append(impl)
+        if impl is None:
+            continue
         ln = P.model_line(c, impl) if driver.ok else None
         if ln is not None:
             idx.append(i)
@@ -335,11 +342,17 @@ def _check(prop, tier, replay):
     compared = 0
     for i, c in enumerate(cases):
         impl = impls[i]
-        for t in (P.tags(c, impl) if hasattr(P, 'tags') else []):
-            hist[t] += 1
-        if P.nontrivial(c, impl):
-            distinct.add(hashlib.sha1(jdump(c).encode()).hexdigest())
-        why = P.oracle(c, impl)
+        if impl is None:
+            continue
+        try:
+            for t in (P.tags(c, impl) if hasattr(P, 'tags') else []):
+                hist[t] += 1
+            if P.nontrivial(c, impl):
+                distinct.add(hashlib.sha1(jdump(c).encode()).hexdigest())
+            why = P.oracle(c, impl)
+        except Exception as e:      # noqa
+            harness_exc.append((i, 'oracle', traceback.format_exc()[-1500:]))
+            continue
         if why:
             failures.append(('impl-violates-property', c, impl, why, answers.get(i)))
             continue
@@ -444,7 +457,7 @@ def _check(prop, tier, replay):
 
     # ---------- 5. evidence -------------------------------------------------------------------
     samples = []
-    for i in list(range(min(3, len(cases)))):
+    for i in [j for j in range(len(cases)) if impls[j] is not None][:3]:
         samples.append({'case': cases[i], 'impl': impls[i], 'model': answers.get(i)})
     checker_cmd = f'cd lean && lake build {" ".join(targets)} drv_{drv} && lake env lean NdnProofs/Audit/{prop}.lean  (#print axioms per theorem; grep for sorry/admit/axiom/native_decide/bv_decide in {len(sources)} source files)'
     leanchecker = None
@@ -494,4 +507,10 @@ def _check(prop, tier, replay):
         print('  build errors:', broken_names[:10])
     for l in out_lines:
         print(l)
+    if harness_exc:
+        print(f'HARNESS-EXCEPTION on {len(harness_exc)} case(s) (first: case {harness_exc[0][0]} in {harness_exc[0][1]}):')
+        print(harness_exc[0][2])
+        if rc == 0:
+            print('HARNESS-ERROR (exit 2: this is not a verdict about the property)')
+            rc = 2
     return rc
